@@ -45,10 +45,10 @@ def tiers(pid):
     if pid == "C08":
         if tr == "quick":
             return dict(MaxN=3, MaxL=3, FullL=3, CatL=[1], Kinds="one")
-        return dict(MaxN=4, MaxL=6, FullL=3, CatL=[1], Kinds="one")
+        return dict(MaxN=4, MaxL=6, FullL=4, CatL=[1], Kinds="one")
     if tr == "quick":
         return dict(MaxN=3, MaxL=3, FullL=3, CatL=[1, 2, 3], Kinds="one")
-    return dict(MaxN=4, MaxL=6, FullL=3, CatL=[1, 2, 3, 6], Kinds="all")
+    return dict(MaxN=4, MaxL=6, FullL=3, CatL=[1, 2, 3, 4, 5, 6], Kinds="all")
 
 
 def write_cfg(wd, name, consts, init, nxt, invs=(), trace=None):
@@ -254,7 +254,12 @@ def run(pid):
     log("%s model: %r, %d records" % (pid, r1, len(recs)))
     model_notes = {}
     if pid == "C08":
+        # every enumerated case is executed; cases with short vectors twice, in different DKG sessions (other delivery schedule) and
+        # with another concretisation of the message alphabet
         cases = [(i, c) for i, c in enumerate(recs)]
+        cases += [(len(recs) + i, c) for i, c in enumerate(recs) if c["L"] <= 3]
+        rng.shuffle(cases)
+        cases.sort(key=lambda x: (x[1]["n"], x[1]["t"], x[1]["L"]))
     else:
         cases = [(i, o["c"]) for i, o in enumerate(recs)]
         # what the model says about the catalogue
@@ -290,7 +295,7 @@ def run(pid):
     cov = dict(
         states=max(r1.distinct + r2.distinct, 1), transitions=max(r1.generated + r2.generated, 1),
         traces_validated_against_impl=len(results), samples=samples,
-        exhaustive=len(results) == len(cases),
+        exhaustive=len(results) == len(cases) and len(cases) >= len(recs), cases_enumerated=len(recs),
         configs=[dict(spec="Sig", constants=consts, distinct=r1.distinct, generated=r1.generated),
                  dict(spec="SigTrace", results=len(results), distinct=r2.distinct, generated=r2.generated)],
         cases_executed=len(results), accepted=accepted, rejected=len(results) - accepted, dkg_sessions=summary["dkgs"],
